@@ -13,6 +13,15 @@ structure St where
 
 def init : St := { n := Node.init, keys := [] }
 
+/-- `node.StartWithHeight` as of the pinned source: the calls on the node's components in order.  The harness fixture
+`chainfx.Start` re-states the part before the network components (up to `ProvideApplyNewEpochFunc`). -/
+def expectedStartSequence : String :=
+  "secStore.AddKey,blockchain.InitializeChain,appState.Initialize,blockchain.Head.Height,appState.Initialize," ++
+  "blockchain.EnsureIntegrity,blockchain.Head.Height,blockchain.ResetTo,blockchain.ApplyHotfixToState,txpool.Initialize," ++
+  "secStore.GetAddress,flipKeyPool.Initialize,votes.Initialize,fp.Initialize,ceremony.Initialize,blockchain.GetBlock," ++
+  "blockchain.Head.Hash,blockchain.ProvideApplyNewEpochFunc,offlineDetector.Start,consensusEngine.Start,pm.Start," ++
+  "upgrader.Start,stopInitialRPC,startRPC"
+
 def parseTx (s : String) : Option Tx :=
   match s.splitOn ":" with
   | [a, k, p] => match a.toNat?, k.toNat?, p.toNat? with
@@ -57,6 +66,9 @@ def step (st : St) (line : String) : St × String :=
           if j ≤ blocks.length then ({ st with n := st.n.step true (.resetAcross j) }, "ok") else (st, "unsupported")
   | ["restart"] => ({ st with n := st.n.step true .restart }, "ok")
   | ["ans"] => (st, showAns st)
+  -- the node's start-up sequence as extracted from node/node.go; `chainfx.Start` (harness) re-states exactly this one
+  | ["fact", "node-start-sequence", seq] =>
+    (st, if seq = expectedStartSequence then "matches-chainfx-start" else "differs-from-what-chainfx-start-restates")
   -- `shards <min> <max> <networkSize> <currentShards>`: common.CalculateShardsNumber (model: Model/Shards.lean)
   | ["shards", mi, ma, n, cur] =>
     match mi.toNat?, ma.toNat?, n.toNat?, cur.toNat? with
